@@ -140,12 +140,12 @@ func (i *inspect) addIndexes(t *schema.Table, rows *sql.Rows) error {
 			},
 		}
 		if partial {
-			i := strings.Index(stmt.String, "WHERE")
-			if i == -1 {
+			m := reIdxWhere.FindStringSubmatch(stmt.String)
+			if m == nil {
 				return fmt.Errorf("missing partial WHERE clause in: %s", stmt.String)
 			}
 			idx.Attrs = append(idx.Attrs, &IndexPredicate{
-				P: strings.TrimSpace(stmt.String[i+5:]),
+				P: strings.TrimSpace(m[1]),
 			})
 		}
 		t.Indexes = append(t.Indexes, idx)
@@ -157,6 +157,8 @@ var (
 	// A regexp to extract index parts.
 	reIdxParts = regexp.MustCompile("(?i)ON\\s+[\"`]*(?:\\w+)[\"`]*\\s*\\((.+?)\\)(\\s*WHERE\\s+.+)?$")
 	reIdxDesc  = regexp.MustCompile("(?i)\\s+DESC\\s*$")
+	// The predicate of a partial index: the WHERE keyword (any case) that follows the closing parenthesis of the key parts.
+	reIdxWhere = regexp.MustCompile("(?is)\\)\\s*WHERE\\s+(.+)$")
 )
 
 func (i *inspect) indexInfo(ctx context.Context, t *schema.Table, idx *schema.Index) error {
